@@ -83,6 +83,36 @@ fn streaming_encode(k: usize, r: usize, shards: &[Vec<u8>]) -> Result<Vec<Vec<u8
     Ok(res.recovery_iter().map(<[u8]>::to_vec).collect())
 }
 
+/// An iterator whose `size_hint` is whatever the case says (within a few
+/// items of the truth): legal, and nothing the result may depend on.
+struct Hinted<I> {
+    inner: I,
+    hint: (usize, Option<usize>),
+}
+
+impl<I: Iterator> Iterator for Hinted<I> {
+    type Item = I::Item;
+    fn next(&mut self) -> Option<I::Item> {
+        self.inner.next()
+    }
+    fn size_hint(&self) -> (usize, Option<usize>) {
+        self.hint
+    }
+}
+
+/// a size_hint for an iterator that really yields n items: exact, vague, or
+/// wrong by a little in either bound
+fn some_hint(rng: &mut Rng, n: usize) -> (usize, Option<usize>) {
+    match rng.below(6) {
+        0 => (n, Some(n)),
+        1 => (0, None),
+        2 => (n + rng.range(1, 3), None),
+        3 => (0, Some(n.saturating_sub(rng.range(1, 2)))),
+        4 => (0, Some(0)),
+        _ => (n.saturating_sub(1), Some(n + rng.range(1, 3))),
+    }
+}
+
 fn encode_case(rng: &mut Rng, out: &mut CaseOut) {
     let (mut k, mut r) = counts(rng);
     let mut size = match rng.below(8) {
@@ -137,8 +167,19 @@ fn encode_case(rng: &mut Rng, out: &mut CaseOut) {
     }
     let desc = if decoys > 0 { format!("{desc} via filter iterator ({decoys} filtered-out candidates)") } else { desc };
     // a successful call allocates the working space: bounded because size <= 130
+    // a quarter of the calls: an iterator that states its own size_hint
+    let hinted = if rng.chance(1, 4) { Some(some_hint(rng, n)) } else { None };
+    let desc = match hinted {
+        Some(h) => format!("{desc}, iterator with size_hint {h:?}"),
+        None => desc,
+    };
+    if hinted.is_some() {
+        out.tag("encode:stated-size-hint");
+    }
     let one = guarded(|| {
-        if decoys > 0 {
+        if let Some(hint) = hinted {
+            reed_solomon_simd::encode(k, r, Hinted { inner: cands.iter().filter(|c| c.0).map(|c| c.1), hint })
+        } else if decoys > 0 {
             reed_solomon_simd::encode(k, r, cands.iter().filter(|c| c.0).map(|c| c.1))
         } else {
             reed_solomon_simd::encode(k, r, &shards)
@@ -424,13 +465,23 @@ fn decode_case(rng: &mut Rng, out: &mut CaseOut) {
             rc.insert(at, (false, &junk));
         }
     }
+    let hinted = if rng.chance(1, 4) {
+        let no = oc.iter().filter(|c| c.0).count();
+        let nr = rc.iter().filter(|c| c.0).count();
+        Some((some_hint(rng, no), some_hint(rng, nr)))
+    } else {
+        None
+    };
+    if hinted.is_some() {
+        out.tag("decode:stated-size-hint");
+    }
     let one = guarded(|| {
-        reed_solomon_simd::decode(
-            k,
-            r,
-            oc.iter().filter(|c| c.0).map(|c| (c.1 .0, &c.1 .1)),
-            rc.iter().filter(|c| c.0).map(|c| (c.1 .0, &c.1 .1)),
-        )
+        let oi = oc.iter().filter(|c| c.0).map(|c| (c.1 .0, &c.1 .1));
+        let ri = rc.iter().filter(|c| c.0).map(|c| (c.1 .0, &c.1 .1));
+        match hinted {
+            Some((ho, hr)) => reed_solomon_simd::decode(k, r, Hinted { inner: oi, hint: ho }, Hinted { inner: ri, hint: hr }),
+            None => reed_solomon_simd::decode(k, r, oi, ri),
+        }
     });
     let model = guarded(|| streaming_decode(k, r, &o, &rec));
     out.evals += 1;
